@@ -80,15 +80,7 @@ class FormulaParser(Parser):
                   | expression DIV expression
                   | expression AMP expression
         """
-        if p[2] == '&':
-            if isinstance(p[1], error.XLError):
-                p[0] = p[1]
-            elif isinstance(p[3], error.XLError):
-                p[0] = p[3]
-            else:
-                p[0] = ''.join(operators.text_of(v) for v in (p[1], p[3]))
-        else:
-            p[0] = operators.evaluate_arithmetic(p[2], p[1], p[3])
+        p[0] = operators.evaluate_arithmetic(p[2], p[1], p[3])
 
     def p_expression_logical_operator(self, p):
         """
